@@ -614,13 +614,17 @@ class Executor:
             return self.block(s.body if c.val else s.orelse, st)
         sa = st.clone(); sa.pc = ir.band_(st.pc, c)
         sb = st.clone(); sb.pc = ir.band_(st.pc, ir.not_(c))
+        pa0, pb0 = sa.pc, sb.pc
         ra = self.block(s.body, sa)
         rb = self.block(s.orelse, sb)
         outs = [o for o in ra + rb if o.kind != 'fall']
         fa = [o for o in ra if o.kind == 'fall']; fb = [o for o in rb if o.kind == 'fall']
         if fa and fb:
             m = self.merge_states(c, fa[0].state, fb[0].state)
-            m.pc = st.pc if not outs else ir.bor_(fa[0].state.pc, fb[0].state.pc)
+            # the two branch conditions partition the incoming condition only if neither branch narrowed its own (a callee that
+            # may raise, an assert, an early exit): otherwise the join carries the disjunction of what reaches it
+            whole = not outs and fa[0].state.pc is pa0 and fb[0].state.pc is pb0
+            m.pc = st.pc if whole else ir.bor_(fa[0].state.pc, fb[0].state.pc)
             outs.append(Outcome('fall', m))
         elif fa:
             outs.append(fa[0])
